@@ -597,6 +597,15 @@ func (p *printer) funcDef(x *ast.FuncDef) {
 	p.command(x.Body)
 }
 
+// suspend hides the pending here-documents of the enclosing commands
+// while an expansion that spans lines is printed: they begin after the
+// line on which the word ends, not inside the expansion.
+func (p *printer) suspend() func() {
+	stack := p.stack
+	p.stack = nil
+	return func() { p.stack = stack }
+}
+
 func (p *printer) push() {
 	p.stack = append(p.stack, nil)
 }
@@ -676,6 +685,7 @@ func (p *printer) cmdSubst(w *ast.CmdSubst) {
 		p.w.WriteByte('`')
 	}
 	if len(w.List) > 1 || w.Left.Line() != w.Right.Line() {
+		defer p.suspend()()
 		p.compoundList(w.List)
 		p.newline()
 		p.indent()
@@ -712,6 +722,7 @@ func (p *printer) arithExp(w *ast.ArithExp) {
 func (p *printer) arithExpr(list bool, left string, x ast.Word) {
 	p.w.WriteString(left)
 	if !list {
+		defer p.suspend()()
 		p.lv++
 		p.newline()
 		p.indent()
